@@ -16,6 +16,9 @@ import (
 	"context"
 	"fmt"
 	"io"
+	"os"
+	"os/exec"
+	"path/filepath"
 	"sort"
 	"strconv"
 	"strings"
@@ -681,6 +684,8 @@ func (c *Ctx2) session(s *Session) {
 		switch {
 		case on[i].R == offr[i].R && on[i].O == offr[i].O:
 			sig = "log-not-replayed"
+		case s.collisionSig() != "":
+			sig = s.collisionSig()
 		case closed:
 			sig = "closed-fragment-differs"
 		case s.rebinds(i):
@@ -695,7 +700,9 @@ func (c *Ctx2) session(s *Session) {
 		// the two known findings are recorded 40 times each (every further one is only counted), so that the
 		// failure list of common.Ctx (capped) always has room for anything else
 		c.seen[sig]++
-		if (sig != "log-not-replayed" && sig != "stale-hit:redefined-callee") || c.seen[sig] <= 40 {
+		known := sig == "log-not-replayed" || sig == "stale-hit:redefined-callee" ||
+			(strings.HasPrefix(sig, "stale-hit:printed-text-collision:") && !strings.HasSuffix(sig, ":unclassified"))
+		if !known || c.seen[sig] <= 40 {
 			c.Fail(sig, s.text(), detail)
 		}
 		break
@@ -743,6 +750,20 @@ func corpus() []*Session {
 	})
 	mk("finding:redefined-callee", func(s *Session) { // function replaced by a non-function
 		s.Inputs = []*Expr{asg("g", s.fn("", nil, li(1))), asg("f", s.fn("", nil, cn("g"))), cn("f"), asg("g", li(5)), cn("f")}
+	})
+	// known findings: two functions that print alike share a key (derived from recorded C02 printer findings)
+	mk("keycollision:plus-in-plus-right-operand", func(s *Session) {
+		ps := []string{"p", "q", "r"}
+		a := []*Expr{lit(va(vi(1))), li(2), li(3)}
+		s.Inputs = []*Expr{asg("f", s.fn("", ps, add(v("p"), add(v("q"), v("r"))))), cn("f", a...), asg("f", s.fn("", ps, add(add(v("p"), v("q")), v("r")))), cn("f", a...)}
+	})
+	mk("keycollision:statement-starts-with-prefix-operator", func(s *Session) {
+		s.Inputs = []*Expr{s.fn("f", []string{"p"}, raw("(if p {1} else {2})+3")), raw("f(true)"), s.fn("g", []string{"p"}, raw("if p {1} else {2}; +3")), raw("g(true)")}
+	})
+	// counted loops over an upper-case variable read by remembered functions (direct oracle only)
+	mk("mech:loop-over-constant-named-variable", func(s *Session) {
+		s.Inputs = []*Expr{raw("scaled=func(){LEVEL*10}"), raw("fresh=func(){rand(1) LEVEL*10}"), raw("for LEVEL = 3 {println(LEVEL, scaled(), fresh())}"),
+			raw("println(LEVEL, scaled(), fresh())"), raw("for LEVEL = 2:5 {println(LEVEL, scaled(), fresh())}"), raw("println(LEVEL, scaled(), fresh())")}
 	})
 	// the known finding: log() inside a remembered call is emitted once
 	mk("finding:log-not-replayed", func(s *Session) {
@@ -1581,6 +1602,186 @@ func (c *Ctx2) interruptSession() *Session {
 	return s
 }
 
+// two different functions that PRINT alike share a cache key (the key is the printed text; recorded C02 printer
+// findings): tagged sessions name the C02 finding they derive from; any other collision is unclassified (a violation)
+func (s *Session) collisionSig() string {
+	for i, a := range s.Defs {
+		for _, b := range s.Defs[i+1:] {
+			if a.Key == b.Key && (a.Body.src(s) != b.Body.src(s) || strings.Join(a.Params, ",") != strings.Join(b.Params, ",")) {
+				if strings.HasPrefix(s.Tag, "keycollision:") {
+					return "stale-hit:printed-text-collision:" + strings.TrimPrefix(s.Tag, "keycollision:")
+				}
+				return "stale-hit:printed-text-collision:unclassified"
+			}
+		}
+	}
+	return ""
+}
+
+func (c *Ctx2) collisionSession() *Session {
+	r := c.R
+	if r.Bool() {
+		s := &Session{Tag: "keycollision:plus-in-plus-right-operand"}
+		ps := []string{"p", "q", "r"}
+		right := s.fn("", ps, add(v("p"), add(v("q"), v("r"))))
+		left := s.fn("", ps, add(add(v("p"), v("q")), v("r")))
+		if r.Bool() {
+			right, left = left, right
+		}
+		pools := [][]Val{{va(vi(1)), vi(2), vi(3)}, {va(va(vi(1))), va(vi(2)), vi(3)}, {vi(1), vi(2), vi(3)}, {vs("x"), vs("y"), vs("z")}, {va(), vi(0), va(vi(1))}}
+		args := func() []*Expr {
+			p := pools[r.Intn(len(pools))]
+			return []*Expr{lit(p[0]), lit(p[1]), lit(p[2])}
+		}
+		a := args()
+		s.Inputs = []*Expr{asg("f", right), cn("f", a...)}
+		if r.Bool() {
+			s.Inputs = append(s.Inputs, cn("f", args()...))
+		}
+		name := "f"
+		if r.Bool() {
+			name = "g"
+		}
+		s.Inputs = append(s.Inputs, asg(name, left), cn(name, a...), cn(name, args()...), cn("f", a...))
+		return s
+	}
+	s := &Session{Tag: "keycollision:statement-starts-with-prefix-operator"}
+	op := []string{"+", "-"}[r.Intn(2)]
+	k := strconv.Itoa(1 + r.Intn(3))
+	one := s.fn("f", []string{"p"}, raw("(if p {1} else {2})"+op+k))
+	two := s.fn("g", []string{"p"}, raw("if p {1} else {2}; "+op+k))
+	if r.Bool() {
+		s.Inputs = []*Expr{one, raw("f(true)"), two, raw("g(true)"), raw("g(false)"), raw("f(false)")}
+	} else {
+		s.Inputs = []*Expr{two, raw("g(true)"), one, raw("f(true)"), raw("f(false)"), raw("g(false)")}
+	}
+	return s
+}
+
+// counted top-level loops over an UPPER-CASE (or lower-case) variable whose body, and later inputs, call functions reading
+// that variable (remembered or not). Loops are outside the model's language: direct oracle only.
+func (c *Ctx2) loopSession() *Session {
+	s := &Session{Tag: "random-loop"}
+	r := c.R
+	name := []string{"K", "LEVEL", "k"}[r.Intn(3)]
+	s.Inputs = append(s.Inputs, raw("sc = func(){"+name+"*10}"), raw("fr = func(){rand(1) "+name+"*10}"))
+	if r.Bool() {
+		s.Inputs = append(s.Inputs, raw("tw = func(){sc()+1}"))
+	} else {
+		s.Inputs = append(s.Inputs, raw("tw = func(){catch(sc()).err}"))
+	}
+	if r.Bool() {
+		s.Inputs = append(s.Inputs, raw(name+" = 7"), raw("println(sc(), fr(), tw())"))
+	}
+	loops := []string{"for " + name + " = 3 {println(" + name + ", sc(), fr(), tw())}", "for " + name + " = 1:4 {print(sc(), tw())}",
+		"for " + name + " = 2 {sc()}", "for " + name + " = 3 {print(" + name + ")}"}
+	for i, n := 0, 2+r.Intn(3); i < n; i++ {
+		s.Inputs = append(s.Inputs, raw(loops[r.Intn(len(loops))]), raw("println("+name+", sc(), fr(), tw())"))
+	}
+	return s
+}
+
+// ---------------------------------------------------------------- the grol BINARY on several files
+// Without -shared-state every file gets a new interpreter state: running the files together must print what running
+// each alone prints, and the same with memoization off (GROL_VERIF_CACHE_OFF, verif build).
+func (c *Ctx2) multiFile() {
+	// ./check runs the harness with the verification root as working directory; the harness module (with its replace
+	// of grol.io/grol by the tree under test) is <root>/harness. VERIF_REPO (seeded-change experiments): go.alt.mod.
+	wd, err := os.Getwd()
+	if err != nil {
+		c.Fail("harness:multifile-setup", "os.Getwd", err.Error())
+		return
+	}
+	modDir := filepath.Join(wd, "harness")
+	if _, err := os.Stat(filepath.Join(modDir, "go.mod")); err != nil {
+		if exe, e2 := os.Executable(); e2 == nil {
+			modDir = filepath.Dir(filepath.Dir(exe)) // <harness>/bin/C04 -> <harness>
+		}
+	}
+	dir, err := filepath.Abs(filepath.Join(c.Out, "multifile"))
+	if err != nil {
+		c.Fail("harness:multifile-setup", c.Out, err.Error())
+		return
+	}
+	_ = os.RemoveAll(dir)
+	if err := os.MkdirAll(dir, 0o755); err != nil {
+		c.Fail("harness:multifile-setup", dir, err.Error())
+		return
+	}
+	bin := filepath.Join(dir, "grol")
+	args := []string{"build", "-tags", "verif", "-o", bin}
+	if r := os.Getenv("VERIF_REPO"); r != "" && r != "/repo" {
+		args = append(args, "-modfile=go.alt.mod")
+	}
+	build := exec.Command("go", append(args, "grol.io/grol")...)
+	build.Dir = modDir
+	if out, err := build.CombinedOutput(); err != nil {
+		c.Fail("harness:multifile-build", "go build grol.io/grol in "+modDir, err.Error()+": "+string(out))
+		return
+	}
+	run := func(off bool, files ...string) string {
+		cmd := exec.Command(bin, append([]string{"-quiet", "-no-auto", "-no-progress"}, files...)...)
+		cmd.Dir = dir
+		cmd.Env = append(os.Environ(), "GROL_VERIF_CACHE_OFF="+map[bool]string{true: "1", false: "0"}[off])
+		var out bytes.Buffer
+		cmd.Stdout = &out
+		c.Eval()
+		if err := cmd.Run(); err != nil {
+			return out.String() + "\n[exit: " + err.Error() + "]"
+		}
+		return out.String()
+	}
+	r := c.R
+	n := 12
+	if c.Thorough() {
+		n = 120
+	}
+	for k := 0; k < n; k++ {
+		shape := r.Intn(4)
+		var body, use string
+		switch shape {
+		case 0:
+			body, use = `f=func(x){println("f called with",x) x+LIMIT}`, "println(f(1))"
+		case 1:
+			body, use = `f=func(x){println("f", x) x+h()}`, "println(f(1), f(2), f(1))"
+		case 2:
+			body, use = `func f(x){x*LIMIT+h()}`, "println(f(2))\nprintln(f(2))"
+		default:
+			body, use = `f=func(x){x+base}`, "println(f(1))"
+		}
+		nf := 2 + r.Intn(2)
+		var files, texts []string
+		for i := 0; i < nf; i++ {
+			k1, k2 := 10*(1+r.Intn(3)), 1+r.Intn(3)
+			text := fmt.Sprintf("LIMIT=%d\nh=func(){%d}\nbase=%d\n%s\n%s\n", k1, k2, k1+k2, body, use)
+			name := fmt.Sprintf("s%d_%c.gr", k, 'a'+i)
+			if err := os.WriteFile(filepath.Join(dir, name), []byte(text), 0o644); err != nil {
+				c.Fail("harness:multifile-setup", name, err.Error())
+				return
+			}
+			files, texts = append(files, name), append(texts, text)
+		}
+		c.Count("multifile_runs")
+		together, togetherOff := run(false, files...), run(true, files...)
+		alone := ""
+		for _, f := range files {
+			alone += run(false, f)
+		}
+		cs := "grol -quiet -no-auto -no-progress " + strings.Join(files, " ") + " :: " + strings.ReplaceAll(strings.Join(texts, " ;;; "), "\n", "; ")
+		switch {
+		case together != alone:
+			c.Fail("multifile:function-cache-shared-between-files", cs, fmt.Sprintf("together %q / each file alone %q", together, alone))
+			return
+		case together != togetherOff:
+			c.Fail("multifile:cache-observable", cs, fmt.Sprintf("cache on %q / cache off %q", together, togetherOff))
+			return
+		}
+		if strings.Count(together, "\n") >= nf {
+			c.NonTrivial(cs)
+		}
+	}
+}
+
 func runC04(c0 *Ctx) {
 	c := &Ctx2{Ctx: c0, seen: map[string]int{}}
 	log.SetOutput(io.Discard)
@@ -1597,7 +1798,7 @@ func runC04(c0 *Ctx) {
 		"oracle: no call of such a writer or of its callers may appear in the cache); each run cache on and cache off on the implementation (direct oracle) and on the extracted model. " +
 		"non-trivial = distinct session that ends with a non-empty cache"
 	// every identifier the generator uses must be free in a fresh state (not an extension, not a predefined function)
-	for _, name := range []string{"f", "g", "h", "id", "mk", "a", "b", "c", "d", "w", "k", "x", "y", "t", "n", "m", "p", "q", "r", "s", "X", "N", "F", "fib", "f2", "k4", "v", "nx", "tw", "tt", "m", "vf", "wy", "A", "pick", "fa", "fb", "slow"} {
+	for _, name := range []string{"f", "g", "h", "id", "mk", "a", "b", "c", "d", "w", "k", "x", "y", "t", "n", "m", "p", "q", "r", "s", "X", "N", "F", "fib", "f2", "k4", "v", "nx", "tw", "tt", "m", "vf", "wy", "A", "pick", "fa", "fb", "slow", "sc", "fr", "K", "LEVEL", "LIMIT", "base"} {
 		st := eval.NewState()
 		st.Out, st.LogOut = io.Discard, io.Discard
 		res, _ := evalProtected(st, parser.New(lexer.New(name)).ParseProgram())
@@ -1634,16 +1835,22 @@ func runC04(c0 *Ctx) {
 			case 2:
 				c.session(c.impureResultSession())
 			default:
-				if (i/40)%2 == 0 {
+				switch (i / 40) % 4 {
+				case 0:
 					c.session(c.bigArgSession())
-				} else {
+				case 1:
 					c.session(c.interruptSession())
+				case 2:
+					c.session(c.collisionSession())
+				default:
+					c.session(c.loopSession())
 				}
 			}
 		default:
 			c.session(c.randomSession(false))
 		}
 	}
+	c.multiFile()
 }
 
 // replay re-runs the direct oracle on a session text "in1 ;; in2 ;; ..." (grol source).
